@@ -35,6 +35,8 @@ func main() {
 		os.Exit(cmdReplay(os.Args[2:]))
 	case "sweep":
 		os.Exit(cmdSweep(os.Args[2:]))
+	case "locals":
+		os.Exit(cmdLocals(os.Args[2:]))
 	default:
 		fmt.Fprintln(os.Stderr, "unknown command", os.Args[1])
 		os.Exit(2)
@@ -55,6 +57,10 @@ func setup(repo, verif string, pkgs []string) (*Engine, error) {
 	e.inlineStd["binary.(bigEndian).Uint32"] = true
 	if err := e.loadAllSpecs(filepath.Join(verif, "spec")); err != nil {
 		return nil, err
+	}
+	if os.Getenv("GOVC_NOALIAS") == "" {
+		e.applyAliases(verif)
+		e.loadFieldsBaseline(verif)
 	}
 	return e, nil
 }
@@ -231,4 +237,28 @@ func cmdReplay(args []string) int {
 		fmt.Println("PANIC reproduced:", oc.Panic)
 	}
 	return 1
+}
+
+// cmdLocals writes props/locals.json, the baseline of declared variable names used for rename tolerance.
+func cmdLocals(args []string) int {
+	fs := flag.NewFlagSet("locals", flag.ExitOnError)
+	repo := fs.String("repo", "/repo", "")
+	verif := fs.String("verif", "/verif", "")
+	pk := fs.String("pkgs", "", "comma separated package patterns")
+	fs.Parse(args)
+	os.Setenv("GOVC_NOALIAS", "1")
+	e, err := setup(*repo, *verif, strings.Split(*pk, ","))
+	if err != nil {
+		fmt.Fprintln(os.Stderr, err)
+		return 2
+	}
+	if err := e.writeFieldsBaseline(*verif); err != nil {
+		fmt.Fprintln(os.Stderr, err)
+		return 2
+	}
+	if err := e.writeLocalsBaseline(*verif); err != nil {
+		fmt.Fprintln(os.Stderr, err)
+		return 2
+	}
+	return 0
 }
